@@ -91,9 +91,11 @@ def replay(p):
     if what == 'ptrace':
         rho = _c(p, 'rho')
         dims, keep = p['dims'], p['keep']
-        got = numqi.utils.partial_trace(rho, dims, set(keep))
+        arg = {'set': set(keep), 'reversed list': list(keep)[::-1], 'reversed tuple with a repeat': tuple(list(keep)[::-1] + list(keep)[:1]),
+               'int': keep[0]}[p.get('form', 'set')]
+        got = numqi.utils.partial_trace(rho, dims, arg)
         ref = ptrace_ref(rho, dims, keep)
-        return (not H.close(got, ref, TOL)), f'partial_trace dims={dims} keep={keep}'
+        return (not H.close(got, ref, TOL)), f'partial_trace dims={dims} keep_index={arg!r} differs from the explicit contraction over the kept set'
     if what == 'ptrace2':
         rho = _c(p, 'rho')
         dims, k1, k2 = p['dims'], p['keep1'], p['keep2']
@@ -169,6 +171,18 @@ def run(chk):
                     cl = ir.band(cl, H.eq_sc(tr_got, tr_rho))
                     chk.add(f'partial_trace[dims={dims},keep={keep}] == explicit contraction & trace preserved', [], cl, key='partial_trace != contraction',
                             replay=('c17', lambda m, rho=rho, dims=dims, keep=keep: payload(m, {'rho': rho}, what='ptrace', dims=list(dims), keep=list(keep))))
+                    # the kept subsystems may be named by any iterable (or a bare int): the result is that of the kept *set*
+                    forms = [('reversed list', list(keep)[::-1]), ('reversed tuple with a repeat', tuple(list(keep)[::-1] + list(keep)[:1]))] if len(keep) >= 2 else [('int', keep[0])]
+                    for fname, arg in forms:
+                        try:
+                            g2 = numqi.utils.partial_trace(rho, list(dims), arg)
+                            cl2 = ir.band_all(H.eq_sc(a, b) for a, b in zip(H.elems(g2), H.elems(ref))) if tuple(g2.shape) == ref.shape else ir.FALSE
+                        except S.EngineError:
+                            raise
+                        except Exception:                    # noqa: BLE001
+                            cl2 = ir.FALSE
+                        chk.add(f'partial_trace[dims={dims},keep_index={arg!r}] ({fname}) == explicit contraction over the kept set', [], cl2, key='partial_trace: keep_index form',
+                                replay=('c17', lambda m, rho=rho, dims=dims, keep=keep, fname=fname: payload(m, {'rho': rho}, what='ptrace', dims=list(dims), keep=list(keep), form=fname)))
                     if len(keep) >= 2:
                         for r2 in range(1, len(keep)):
                             for k2 in itertools.combinations(range(len(keep)), r2):
